@@ -47,12 +47,16 @@ struct TbbCfg {
     int max_leaves = 24;     // per region
     int steal_max_size = 0;  // swarm knob: if > 0 only right halves of at most this many elements are stolen
                              // (deep, small steals followed by a long continuation on the joined accumulator)
+    int steal_budget = 0;    // swarm knob: if > 0 at most this many steals per parallel region (one or two steals at seeded positions,
+                             // everything else runs on in order: the longest possible continuation on a joined accumulator)
     int yield_pm = 300;
 };
 struct RegionRec { size_t limit; int W; };
 struct TbbStats {
     long regions = 0, leaves = 0, splits = 0, steals = 0, joins = 0, join_both = 0, join_one = 0, join_none = 0;
     long pushes = 0, push_other_strand = 0, body_on_found = 0, reduce_multi_run = 0;
+    long body_after_join_none = 0;           // a body ran on an accumulator that is the result of joining two "not found" values
+    const void *jn_acc[64] = {}; int jn_n = 0;
     long max_range = 0, regions_gt64 = 0, regions_gt256 = 0, regions_gt1024 = 0;   // reach: sizes of the ranges handed to regions
     std::vector<RegionRec> region_log;
     void reset() { *this = TbbStats(); }
@@ -87,9 +91,10 @@ struct RegionScope {
     }
 };
 
-inline bool may_steal(int W, size_t right_size = 0) {
+inline bool may_steal(int W, size_t right_size = 0, int region_steals = 0) {
     ProcCtx *p = cur_proc();
     IgnoreGuard ig;
+    if (tbbcfg.steal_budget > 0 && region_steals >= tbbcfg.steal_budget) return false;
     if (tbbcfg.steal_max_size > 0 && right_size > (size_t) tbbcfg.steal_max_size) return false;
     return W > 1 && p->active_strands < W;
 }
@@ -179,7 +184,7 @@ class task_group_context {};
 namespace detail_sim {
 
 template<class Range, class Body>
-struct ForCtx { const Body *body; int W; int leaves; };
+struct ForCtx { const Body *body; int W; int leaves; int steals; };
 
 template<class Range, class Body> void for_exec(ForCtx<Range, Body> &c, Range &range);
 
@@ -200,8 +205,8 @@ void for_exec(ForCtx<Range, Body> &c, Range &range) {
     sim::Sched &s = sim::Sched::get();
     if (range.is_divisible() && sim::want_split(c.leaves)) {
         Range right(range, split());
-        if (sim::may_steal(c.W, (size_t) right.size()) && sim::flip(sim::T_STEAL, sim::tbbcfg.steal_pm)) {
-            { sim::IgnoreGuard ig; sim::tbbstats.steals++; }
+        if (sim::may_steal(c.W, (size_t) right.size(), c.steals) && sim::flip(sim::T_STEAL, sim::tbbcfg.steal_pm)) {
+            { sim::IgnoreGuard ig; sim::tbbstats.steals++; c.steals++; }
             ForStrand<Range, Body> st { &c, &right, nullptr };
             sim::strand_delta(+1);
             int id = s.spawn(&for_strand_fn<Range, Body>, &st);
@@ -230,7 +235,7 @@ template<class Range, class Body>
 void parallel_for(const Range &range, const Body &body) {
     if (range.empty()) return;
     sim::RegionScope rs; sim::note_range_of(range, 0);
-    detail_sim::ForCtx<Range, Body> c { &body, rs.W, 1 };
+    detail_sim::ForCtx<Range, Body> c { &body, rs.W, 1, 0 };
     Range r(range);
     detail_sim::for_exec(c, r);
 }
@@ -291,7 +296,7 @@ void red_exec(RedCtx<Range, Value, Body, Red> &c, Range &range, Value &acc) {
     sim::Sched &s = sim::Sched::get();
     if (range.is_divisible() && sim::want_split(c.leaves)) {
         Range right(range, split());
-        if (sim::may_steal(c.W, (size_t) right.size()) && sim::flip(sim::T_STEAL, sim::tbbcfg.steal_pm)) {
+        if (sim::may_steal(c.W, (size_t) right.size(), c.runs - 1) && sim::flip(sim::T_STEAL, sim::tbbcfg.steal_pm)) {
             { sim::IgnoreGuard ig; sim::tbbstats.steals++; c.runs++; }
             RedStrand<Range, Value, Body, Red> st; st.c = &c; st.range = &right; st.constructed = false;
             sim::strand_delta(+1);
@@ -311,7 +316,7 @@ void red_exec(RedCtx<Range, Value, Body, Red> &c, Range &range, Value &acc) {
                 int l = sim::value_found(acc), r = sim::value_found(st.value());
                 sim::IgnoreGuard ig;
                 sim::tbbstats.joins++;
-                if (l >= 0) { if (l && r) sim::tbbstats.join_both++; else if (l || r) sim::tbbstats.join_one++; else sim::tbbstats.join_none++; }
+                if (l >= 0) { if (l && r) sim::tbbstats.join_both++; else if (l || r) sim::tbbstats.join_one++; else { sim::tbbstats.join_none++; if (sim::tbbstats.jn_n < 64) sim::tbbstats.jn_acc[sim::tbbstats.jn_n++] = &acc; } }
             }
             s.yield();
             acc = (*c.red)(const_cast<const Value&>(acc), const_cast<const Value&>(st.value()));   // lambda_reduce_body::join
@@ -320,7 +325,8 @@ void red_exec(RedCtx<Range, Value, Body, Red> &c, Range &range, Value &acc) {
             red_exec(c, right, acc);
         }
     } else {
-        { int f = sim::value_found(acc); sim::IgnoreGuard ig; sim::tbbstats.leaves++; if (f == 1) sim::tbbstats.body_on_found++; }
+        { int f = sim::value_found(acc); sim::IgnoreGuard ig; sim::tbbstats.leaves++; if (f == 1) sim::tbbstats.body_on_found++;
+          if (f == 0) for (int q = 0; q < sim::tbbstats.jn_n; q++) if (sim::tbbstats.jn_acc[q] == &acc) { sim::tbbstats.body_after_join_none++; break; } }
         s.yield();
         acc = (*c.body)(range, const_cast<const Value&>(acc));      // lambda_reduce_body::operator()
     }
@@ -336,7 +342,7 @@ Value parallel_reduce(const Range &range, const Value &identity, const RealBody 
     detail_sim::RedCtx<Range, Value, RealBody, Reduction> c { &identity, &real_body, &reduction, rs.W, 1, 1 };
     Range r(range);
     detail_sim::red_exec(c, r, acc);
-    { sim::IgnoreGuard ig; if (c.runs > 1) sim::tbbstats.reduce_multi_run++; }
+    { sim::IgnoreGuard ig; if (c.runs > 1) sim::tbbstats.reduce_multi_run++; sim::tbbstats.jn_n = 0; }
     return acc;
 }
 template<class Range, class Value, class RealBody, class Reduction, class Partitioner>
